@@ -13,6 +13,9 @@ pub(crate) struct SymmetricStateData {
     h:       [u8; MAXHASHLEN],
     ck:      [u8; MAXHASHLEN],
     has_key: bool,
+    // The key currently installed in `cipherstate` (meaningful only if `has_key`), kept so that a
+    // checkpoint can roll the cipher back.
+    k:       [u8; CIPHERKEYLEN],
 }
 
 impl Default for SymmetricStateData {
@@ -21,8 +24,17 @@ impl Default for SymmetricStateData {
             h:       [0_u8; MAXHASHLEN],
             ck:      [0_u8; MAXHASHLEN],
             has_key: false,
+            k:       [0_u8; CIPHERKEYLEN],
         }
     }
+}
+
+/// A snapshot of everything a failed handshake read/write may have changed: the hash state and
+/// the key and nonce of the handshake cipher.
+#[derive(Copy, Clone)]
+pub(crate) struct SymmetricStateCheckpoint {
+    inner: SymmetricStateData,
+    nonce: u64,
 }
 
 pub(crate) struct SymmetricState {
@@ -66,6 +78,7 @@ impl SymmetricState {
 
         self.inner.ck = hkdf_output.0;
         self.cipherstate.set(&cipher_key, 0);
+        self.inner.k = cipher_key;
         self.inner.has_key = true;
     }
 
@@ -95,6 +108,7 @@ impl SymmetricState {
         let mut cipher_key = [0_u8; CIPHERKEYLEN];
         cipher_key.copy_from_slice(&hkdf_output.2[..CIPHERKEYLEN]);
         self.cipherstate.set(&cipher_key, 0);
+        self.inner.k = cipher_key;
     }
 
     pub fn has_key(&self) -> bool {
@@ -150,12 +164,15 @@ impl SymmetricState {
         self.hasher.hkdf(&self.inner.ck[..hash_len], &[0_u8; 0], 2, out1, out2, &mut []);
     }
 
-    pub(crate) fn checkpoint(&mut self) -> SymmetricStateData {
-        self.inner
+    pub(crate) fn checkpoint(&mut self) -> SymmetricStateCheckpoint {
+        SymmetricStateCheckpoint { inner: self.inner, nonce: self.cipherstate.nonce() }
     }
 
-    pub(crate) fn restore(&mut self, checkpoint: SymmetricStateData) {
-        self.inner = checkpoint;
+    pub(crate) fn restore(&mut self, checkpoint: SymmetricStateCheckpoint) {
+        self.inner = checkpoint.inner;
+        if checkpoint.inner.has_key {
+            self.cipherstate.set(&checkpoint.inner.k, checkpoint.nonce);
+        }
     }
 
     pub fn handshake_hash(&self) -> &[u8] {
